@@ -308,6 +308,40 @@ pub fn run<W: Write>(opts: &Opts, out: &mut W) {
                 dispatch(out, name, &bytes);
             }
         }
+        // every combination of extreme values of the integer fields (all zeros, one, all ones, all ones minus one) with
+        // valid flag / reserved bytes: carries and borrows between neighbouring fields show
+        let layout: &[(usize, u8)] = match name {
+            "Vp8xChunk" => &[(1, 0x3e), (3, 0), (3, 1), (3, 1)],
+            "AnimChunk" => &[(4, 1), (2, 1)],
+            "AnmfChunk" => &[(3, 1), (3, 1), (3, 1), (3, 1), (3, 1), (1, 0x03)],
+            "AlphChunk" => &[(1, 0x1d)],
+            _ => &[],
+        };
+        let ints = layout.iter().filter(|(l, k)| *k == 1 && *l > 1).count() as u32;
+        if layout.iter().map(|(l, _)| *l).sum::<usize>() == len {
+            for combo in 0..4u32.pow(ints) {
+                let mut c = combo;
+                let mut bytes = Vec::with_capacity(len);
+                for &(l, k) in layout {
+                    if k == 1 && l > 1 {
+                        let pick = c % 4;
+                        c /= 4;
+                        let mut f = match pick {
+                            0 => vec![0u8; l],
+                            1 => { let mut f = vec![0u8; l]; f[0] = 1; f }
+                            2 => vec![0xffu8; l],
+                            _ => { let mut f = vec![0xffu8; l]; f[0] = 0xfe; f }
+                        };
+                        bytes.append(&mut f);
+                    } else if k == 0 {
+                        bytes.extend(std::iter::repeat(0u8).take(l));
+                    } else {
+                        bytes.push(k & (combo as u8 | 1));
+                    }
+                }
+                dispatch(out, name, &bytes);
+            }
+        }
         // all-distinct bytes with valid flag/reserved bytes: byte-order and field-order mistakes show
         let mut bytes: Vec<u8> = (0..len).map(|i| 0x10 + i as u8 * 7).collect();
         match name {
